@@ -111,7 +111,8 @@ def one_input(args):
         rp2, qp2 = pipecases.write_input(wd, inp, "plain", qsel=set(inp["ordinary"]))
         for mode in MODES:
             use_cli = (idx + MODES.index(mode)) % 5 == 0 and mode != "single"
-            res = pipecases.run_once(wd, rp, qp, "full_" + mode, mode, extra, cli=use_cli)
+            # every third input writes to an output path without extension (then the additional files are <out>_1, <out>_2)
+            res = pipecases.run_once(wd, rp, qp, "full_" + mode, mode, extra, cli=use_cli, ext="" if idx % 3 == 2 else ".xmap")
             ent = {"status": res["status"], "log": res["log"][-500:], "cli": use_cli, "files": {}}
             for name, parsed in res["files"].items():
                 if parsed is None:
